@@ -270,7 +270,9 @@ def val_scale(spec, x: float) -> float:
         u = (x - a) / b
         lt = u + math.log1p(math.exp(-u)) if u > 0 else math.log1p(math.exp(u))
         off = abs(b) * (a / abs(b) + math.log1p(math.exp(-a / abs(b))))
-        return max(x, a) + abs(b) * (1 + lt) + off
+        sig = 1.0 / (1.0 + math.exp(-u)) if u > -700 else 0.0
+        # rounding of (x - a) moves the result by sigma(u) * eps * max(x, a) only (sigma -> 0 far out)
+        return sig * max(x, a) + abs(b) * (1 + lt) + off
     if k == "scale":
         return d * x
     if k == "poly":
@@ -289,7 +291,7 @@ def gen_spec(rng: random.Random, kind: str):
         return {"kind": kind, "p": [rng.choice([1.0, 0.5, 0.1, 1e-3, rng.uniform(0.01, 1.0)]), 0.0, 0.0]}
     if kind == "poly":
         return {"kind": kind, "p": [1.0, 0.0, 0.0]}
-    d = rng.choice([1.0, 0.5, 2.0, 0.1, 3.7, 1e-3, 30.0, math.exp(rng.uniform(-4, 4))])
+    d = rng.choice([1.0, 0.5, 2.0, 0.1, 3.7, 1e-3, 30.0, 1e-6, 1e6, math.exp(rng.uniform(-4, 4))])
     return {"kind": kind, "p": [d, 0.0, 0.0]}
 
 
@@ -305,7 +307,8 @@ def own_scale(spec) -> float:
 
 
 MULT = [0.0, 1e-30, 1e-12, 1e-6, 1e-3, 0.1, 0.25, 0.5, 0.9, 0.99, 0.999, 1 - 2.0 ** -20, 1 - 2.0 ** -50, 1.0, 1 + 2.0 ** -50,
-        1 + 2.0 ** -20, 1.001, 1.01, 1.1, 2.0, 4.0, 10.0, 1e3, 1e6, 1e12]
+        1 + 2.0 ** -20, 1.001, 1.01, 1.1, 2.0, 4.0, 10.0, 1e3, 1e6, 1e12, 1e20]
+XMAX = {"float64": 1e300, "float32": 1e37}        # "all non-negative input": up to just below overflow
 
 
 def sweep_mults(dtn, s0):
@@ -350,8 +353,11 @@ def kernel_inputs(case):
             vals.append(s0 * (1 + rng.choice([-4, -2, -1, 1, 2, 4]) * eps))
         elif c < 0.85:
             vals.append(rng.choice(common.ladder(eps)))
-        else:
+        elif c < 0.97:
             vals.append(math.exp(rng.uniform(-12, 12)))
+        else:
+            vals.append(XMAX[dtn] * rng.choice([1.0, 1e-3, 1e-10]))
+    vals = [min(v, XMAX[dtn]) for v in vals]
     if n and case.get("with_zero", True):
         vals[rng.randrange(n)] = 0.0
     if n > 1 and spec["kind"] == "huber":
@@ -543,7 +549,7 @@ def run_negative(ctx: Ctx, cases):
 
 # ----------------------------------------------------------------------------- corrector streams
 
-NORMS = [0.0, 0.0, 1e-160, 1e-30, 1e-8, 1e-3, 0.03, 0.3, 0.7, 1.0, 1.0, 1.5, 3.0, 10.0, 100.0, 1e4]
+NORMS = [0.0, 0.0, 1e-160, 1e-30, 1e-8, 1e-3, 0.03, 0.3, 0.7, 1.0, 1.0, 1.5, 3.0, 10.0, 100.0, 1e4, 1e9, 1e60]
 
 
 def corrector_data(case):
@@ -562,8 +568,11 @@ def corrector_data(case):
         nv = rng.choice(NORMS) * (s0 if rng.random() < 0.7 else 1.0)
         if sw is not None:
             c, nv = 1.0, s0 * math.sqrt(sw[(i + case.get("sweep_off", 0)) % len(sw)])
-        if dtn == "float32" and nv != 0.0:
-            nv = min(max(nv, 1e-15), 1e12)
+        if nv != 0.0:
+            # |R_i|^2 must stay finite in the dtype (d <= 6 components): "all residual tensors" up to there
+            nv = min(max(nv, 1e-15), 1e17) if dtn == "float32" else min(nv, 1e140)
+            if spec["kind"] == "poly":          # x^3 of the user polynomial must stay finite
+                nv = min(nv, 1e5 if dtn == "float32" else 1e40)
         if "norm_cap" in case and nv > case["norm_cap"] * s0:
             nv = case["norm_cap"] * s0 * rng.uniform(0.3, 1.0)
         dirv = common.rand_dir(rng, d)
@@ -643,7 +652,9 @@ def item_amp(spec, x: float) -> float:
     if spec["kind"] == "poly":
         return 4.0
     if spec["kind"] == "tolerant":
-        return 1.0 + abs((x - spec["p"][0]) / spec["p"][1])
+        u = (x - spec["p"][0]) / spec["p"][1]
+        sig = 1.0 / (1.0 + math.exp(-u)) if u > -700 else 0.0
+        return 1.0 + (1.0 - sig) * abs(u)       # d sigma / sigma = (1 - sigma) du,  du = |u| eps
     return 1.0
 
 
@@ -653,8 +664,6 @@ def d2_noise(spec, x: float) -> float:
     if x <= 0:
         return 0.0
     k, p = spec["kind"], spec["p"]
-    if k == "tolerant":
-        return 2.0 * x / abs(p[1])
     if k == "poly":
         g1 = p[0] + 2 * p[1] * x + 3 * p[2] * x * x
         return (abs(2 * p[1]) + abs(6 * p[2] * x)) * x / g1 if g1 > 0 else 0.0
@@ -714,7 +723,8 @@ def corrector_oracles(ctx: Ctx, case, R, J, Rc, Jc):
     Gw = g1[:, None] * np.einsum("iap,ia->ip", Jn, Rn)
     Gs = ampv[:, None] * (np.einsum("iap,ia->ip", np.abs(Jcn) + E + floorJ, np.abs(Rcn) + floorR)
                           + g1[:, None] * np.einsum("iap,ia->ip", np.abs(Jn), np.abs(Rn)))
-    tol = TOLK * eps * Gs + 16 * TINY[dtn]
+    # + representability of rho' itself (below the smallest subnormal it is 0 in the dtype)
+    tol = TOLK * eps * Gs + 16 * TINY[dtn] + 4 * SQRT_TINY[dtn] ** 2 * np.einsum("iap,ia->ip", np.abs(Jn), np.abs(Rn))
     if N and (np.abs(G - Gw) > tol).any():
         i, l = (int(v) for v in np.unravel_index(int(np.argmax(np.abs(G - Gw) - tol)), G.shape))
         cfail(ctx, case, f"grad-law: {case['which']}({spec['kind']}{spec['p']}) J'^T R' != sum rho' J^T R: item {i} (|R_i|^2={float(xs[i])!r}) "
@@ -729,7 +739,7 @@ def corrector_oracles(ctx: Ctx, case, R, J, Rc, Jc):
     Ja = np.abs(Jcn) + E + floorJ
     Hs = ampv[:, None, None] * (np.einsum("iap,iaq->ipq", Ja, Ja) + g1[:, None, None] * np.einsum("iap,iaq->ipq", np.abs(Jn), np.abs(Jn))
                                 + np.abs(cur)[:, None, None] * np.einsum("ip,iq->ipq", JRa, JRa))
-    tolh = TOLK * eps * Hs + 16 * TINY[dtn]
+    tolh = TOLK * eps * Hs + 16 * TINY[dtn] + 4 * SQRT_TINY[dtn] ** 2 * np.einsum("iap,iaq->ipq", np.abs(Jn), np.abs(Jn))
     if N and (np.abs(H - Hw) > tolh).any():
         idx = tuple(int(v) for v in np.unravel_index(int(np.argmax(np.abs(H - Hw) - tolh)), H.shape))
         name = "hess-law" if case["which"] == "triggs" else "fast-hess-law"
